@@ -107,6 +107,11 @@ let handle = function
     else
       let r = pparse_with text re_at (set_of alnum) (set_of alpha) (map_of lower) (map_of upper) ic unsafe rules ec act lineat (to_nat fuel) (to_nat start) in
       show_res r (L [])
+  | L [A "genok"; opt; L (A "rules" :: rules)] ->
+    (* which rule bodies lie in the fragment of GenEquiv.genok (after the optimizer, when asked) *)
+    let rules = List.mapi to_rule rules in
+    let rules = if to_bool opt then List.map rule_optimized rules else rules in
+    L (List.map (fun r -> if genok r.r_exp then A "1" else A "0") rules)
   | L [A "layer"; L defaults; L ct; L dir; L pt] ->
     (* fields: (name value-or-none) *)
     let kv = function L [k; v] -> (to_str k, to_opt to_n v) | _ -> failwith "kv" in
